@@ -454,21 +454,12 @@ with sem_multi (n : nat) (ex : bool) (cs : cmds) (s0 acc : state) {struct n} : o
    and `return` outside a function (here: not lexically inside a function
    body).  [d] = loops lexically enclosing the command in its environment and
    function body; [infun] = lexically inside a function body.
-
-   A third restriction concerns scripts that set an EXIT trap: for those the
-   specification only covers scripts without sources of expansion and
-   assignment errors (`${x?}`, `readonly`); [strict = true] is this class
-   (traps allowed, no such error sources), [strict = false] the other one (no
-   traps, error sources allowed).  The reason is a behaviour of yash-rs the
-   specification does not share: a shell error of that kind *inside the EXIT
-   trap action* leaves the stale `$?` as the exit status (see the report). *)
-Definition word_may_fail (w : word) : bool := match w with WReq _ => true | _ => false end.
+ *)
 
 (* ------------------------------------------------------------------ *)
-Fixpoint wf_cmd (strict : bool) (d : nat) (infun : bool) (c : cmd) {struct c} : bool :=
+Fixpoint wf_cmd (d : nat) (infun : bool) (c : cmd) {struct c} : bool :=
   match c with
-  | CAssign _ w => negb strict || negb (word_may_fail w)
-  | CReadonly _ => negb strict
+  | CAssign _ _ | CReadonly _ => true
   | CCall dc nm args =>
       match nm with
       | NBreak | NContinue =>
@@ -481,56 +472,54 @@ Fixpoint wf_cmd (strict : bool) (d : nat) (infun : bool) (c : cmd) {struct c} : 
       | NReturn => infun || bad_redir dc
       | _ => true
       end
-  | CBrace body => wf_list strict d infun body
-  | CSubshell body => wf_list strict 0 infun body
+  | CBrace body => wf_list d infun body
+  | CSubshell body => wf_list 0 infun body
   | CIf cond body elifs _ els =>
-      wf_list strict d infun cond && wf_list strict d infun body && wf_elifs strict d infun elifs && wf_list strict d infun els
-  | CWhile _ cond body => wf_list strict (S d) infun cond && wf_list strict (S d) infun body
-  | CFor _ ws body =>
-      (negb strict || negb (existsb word_may_fail ws))
-      && negb (clist_is_empty body) && wf_list strict (S d) infun body
-  | CCase w items => (negb strict || negb (word_may_fail w)) && wf_items strict d infun items
-  | CFunDef _ body => wf_cmd strict 0 true body
-  | CTrapExit action => strict && wf_list strict 0 false action
-  | CRedirFail c => wf_cmd strict d infun c
+      wf_list d infun cond && wf_list d infun body && wf_elifs d infun elifs && wf_list d infun els
+  | CWhile _ cond body => wf_list (S d) infun cond && wf_list (S d) infun body
+  | CFor _ _ body => negb (clist_is_empty body) && wf_list (S d) infun body
+  | CCase _ items => wf_items d infun items
+  | CFunDef _ body => wf_cmd 0 true body
+  | CTrapExit action => wf_list 0 false action
+  | CRedirFail c => wf_cmd d infun c
   end
-with wf_list (strict : bool) (d : nat) (infun : bool) (l : clist) {struct l} : bool :=
+with wf_list (d : nat) (infun : bool) (l : clist) {struct l} : bool :=
   match l with
   | LNil => true
-  | LCons a l' => wf_andor strict d infun a && wf_list strict d infun l'
+  | LCons a l' => wf_andor d infun a && wf_list d infun l'
   end
-with wf_andor (strict : bool) (d : nat) (infun : bool) (a : andor) {struct a} : bool :=
-  match a with AndOr first rest => wf_pipeline strict d infun first && wf_rest strict d infun rest end
-with wf_rest (strict : bool) (d : nat) (infun : bool) (r : aorest) {struct r} : bool :=
+with wf_andor (d : nat) (infun : bool) (a : andor) {struct a} : bool :=
+  match a with AndOr first rest => wf_pipeline d infun first && wf_rest d infun rest end
+with wf_rest (d : nat) (infun : bool) (r : aorest) {struct r} : bool :=
   match r with
   | RNil => true
-  | RCons _ p r' => wf_pipeline strict d infun p && wf_rest strict d infun r'
+  | RCons _ p r' => wf_pipeline d infun p && wf_rest d infun r'
   end
-with wf_pipeline (strict : bool) (d : nat) (infun : bool) (p : pipeline) {struct p} : bool :=
+with wf_pipeline (d : nat) (infun : bool) (p : pipeline) {struct p} : bool :=
   match p with
   | Pipe _ CNil => true
-  | Pipe _ (CCons c CNil) => wf_cmd strict d infun c
-  | Pipe _ cs => wf_cmds strict infun cs
+  | Pipe _ (CCons c CNil) => wf_cmd d infun c
+  | Pipe _ cs => wf_cmds infun cs
   end
-with wf_cmds (strict : bool) (infun : bool) (cs : cmds) {struct cs} : bool :=
+with wf_cmds (infun : bool) (cs : cmds) {struct cs} : bool :=
   match cs with
   | CNil => true
-  | CCons c cs' => wf_cmd strict 0 infun c && wf_cmds strict infun cs'
+  | CCons c cs' => wf_cmd 0 infun c && wf_cmds infun cs'
   end
-with wf_elifs (strict : bool) (d : nat) (infun : bool) (e : eliflist) {struct e} : bool :=
+with wf_elifs (d : nat) (infun : bool) (e : eliflist) {struct e} : bool :=
   match e with
   | ENil => true
-  | ECons cond body e' => wf_list strict d infun cond && wf_list strict d infun body && wf_elifs strict d infun e'
+  | ECons cond body e' => wf_list d infun cond && wf_list d infun body && wf_elifs d infun e'
   end
-with wf_items (strict : bool) (d : nat) (infun : bool) (is : itemlist) {struct is} : bool :=
+with wf_items (d : nat) (infun : bool) (is : itemlist) {struct is} : bool :=
   match is with
   | INil => true
-  | ICons _ body _ is' => wf_list strict d infun body && wf_items strict d infun is'
+  | ICons _ body _ is' => wf_list d infun body && wf_items d infun is'
   end.
 
-Definition wf_line (strict : bool) (l : line) : bool :=
-  match l with LCmd c => wf_list strict 0 false c | LSyntaxError => true end.
-Definition wf_prog (p : prog) : bool := forallb (wf_line true) p || forallb (wf_line false) p.
+Definition wf_line (l : line) : bool :=
+  match l with LCmd c => wf_list 0 false c | LSyntaxError => true end.
+Definition wf_prog (p : prog) : bool := forallb wf_line p.
 
 (* ---- whole scripts ---- *)
 Fixpoint sem_lines (n : nat) (p : prog) (s : state) : option sres :=
